@@ -290,6 +290,8 @@ type h1Job struct {
 	offsets []int
 	out     []h1Seen // manual mode, one per offset
 	auto    []h1Seen // auto-read mode on a subset
+	dump    []h1Seen // manual mode with the response-header dump on: every cut inside the head (+ some behind it)
+	dl      []dlSeen // downloads: every cut behind the head, output targets in rotation
 }
 
 func runH1(r *hk.Run, rng *hk.Rand) error {
@@ -386,14 +388,40 @@ func runH1(r *hk.Run, rng *hk.Rand) error {
 					x.EnableAutoDecompress().SetCommonHeader("Accept-Encoding", "gzip, deflate, br, zstd")
 				}
 			}
+			// every other stream: the head cuts again with the response-header dump on (another
+			// line reader), the body cuts again as downloads into a file / Closer / plain writer /
+			// a Closer whose Close fails
+			var cd, cdl *req.Client
+			if ji%2 == 0 && len(j.st.Wire) <= 4096 {
+				cd = newH1Client(srv.Addr()).EnableDumpAllTo(io.Discard)
+				if j.decomp {
+					cd.EnableAutoDecompress().SetCommonHeader("Accept-Encoding", "gzip, deflate, br, zstd")
+				}
+				if !j.st.Gzip && j.st.Coding == "" {
+					cdl = newH1Client(srv.Addr())
+				}
+			}
 			for oi, k := range j.offsets {
 				j.out = append(j.out, exchange(c, srv, j.st, j.st.Wire, k, false, false))
 				if (oi+ji)%3 == 0 {
 					j.auto = append(j.auto, exchange(ca, srv, j.st, j.st.Wire, k, true, false))
 				}
+				if cd != nil && (k <= len(j.st.Hdr) || oi%8 == 0) {
+					o := exchange(cd, srv, j.st, j.st.Wire, k, false, false)
+					o.Mode = "manual+dump"
+					j.dump = append(j.dump, o)
+				}
+				if cdl != nil && (k >= len(j.st.Hdr) || oi%16 == 0) {
+					j.dl = append(j.dl, downloadExchange(cdl, srv, j.st, k, dlTargets[(oi+ji)%len(dlTargets)]))
+				}
 			}
 			c.GetTransport().CloseIdleConnections()
 			ca.GetTransport().CloseIdleConnections()
+			for _, x := range []*req.Client{cd, cdl} {
+				if x != nil {
+					x.GetTransport().CloseIdleConnections()
+				}
+			}
 		}(ji, j)
 	}
 	wg.Wait()
@@ -434,8 +462,11 @@ func runH1(r *hk.Run, rng *hk.Rand) error {
 				fmt.Sprintf("h1cuts|%x|%d", st.Wire, last), true)
 			coqObs = nil
 		}
-		for _, o := range append(append([]h1Seen(nil), j.out...), j.auto...) {
+		for _, o := range append(append(append([]h1Seen(nil), j.out...), j.auto...), j.dump...) {
 			cls := cutClass(st, o.K)
+			if o.Mode == "manual+dump" {
+				r.Count("h1.dump-on")
+			}
 			r.Count("h1.framing=" + kind)
 			r.Count("h1.cut=" + cls)
 			h1Oracle(r, st, o, kind, cls, len(st.Wire))
@@ -450,8 +481,8 @@ func runH1(r *hk.Run, rng *hk.Rand) error {
 				r.Add(hk.Case{}, fmt.Sprintf("h1|%x|%d|auto", st.Wire, o.K), o.K > 0 && o.K < len(st.Wire))
 			}
 		}
-		for _, o := range j.out {
-			r.Add(hk.Case{}, fmt.Sprintf("h1|%x|%d|manual", st.Wire, o.K), o.K > 0 && o.K < len(st.Wire))
+		for _, o := range append(append([]h1Seen(nil), j.out...), j.dump...) {
+			r.Add(hk.Case{}, fmt.Sprintf("h1|%x|%d|%s", st.Wire, o.K, o.Mode), o.K > 0 && o.K < len(st.Wire))
 			if coded {
 				seen := "None"
 				if o.CallErr == "" {
@@ -466,6 +497,16 @@ func runH1(r *hk.Run, rng *hk.Rand) error {
 			}
 		}
 		flush(len(st.Wire))
+		var dlObs []string
+		for _, o := range j.dl {
+			dlObs = append(dlObs, dlOracle(r, st, o, kind))
+		}
+		for a := 0; a < len(dlObs); a += 150 {
+			b := min(a+150, len(dlObs))
+			r.Add(hk.Case{Coq: fmt.Sprintf("H1Downloads %s %s %s %s %s", hk.CoqN(uint64(len(st.Hdr))), coqFraming(st), coqBig(st.Wire), coqBig(st.Body), hk.CoqList(dlObs[a:b])),
+				Desc: map[string]interface{}{"kind": "h1downloads", "stream": streamDesc(st), "n_obs": b - a}},
+				fmt.Sprintf("h1downloads|%x|%d", st.Wire, a), true)
+		}
 	}
 	runH1ClLines(r, rng.Fork(), srv)
 	return runH1Full(r, rng, srv)
